@@ -531,6 +531,9 @@ func Drive(id string) int {
 	for _, v := range viol {
 		if !v.has(id) && id != "HIST" {
 			other[strings.Join(v.Props, ",")+" "+v.Monitor]++
+			if os.Getenv("VERIF_SHOW_OTHER") != "" && other[strings.Join(v.Props, ",")+" "+v.Monitor] <= 2 {
+				fmt.Printf("OTHER props=%v monitor=%s sig=%s\n   %s\n", v.Props, v.Monitor, v.Sig, trunc(v.Detail, 900))
+			}
 			continue
 		}
 		if replaySig != "" && v.Sig != replaySig {
